@@ -678,6 +678,7 @@ class Check:
                        or [{"obligation": t} for t in self.theorems[:3]],
             "input_distribution": self.dist(cases),
         })
+        self.disagree_idx = list(disagreements)
         if disagreements:
             i = disagreements[0]
             fails.append(Failure("correspondence",
@@ -737,8 +738,14 @@ class Check:
             violations.append("VIOLATION property=%s replay=%s" % (self.id, path))
             if len(violations) >= 5:
                 break
-        # findings listed as known but not rediscovered on this run are only reported to stderr
-        broken = [f for f in fails]
+        # a model/implementation disagreement confined to inputs on which the implementation is KNOWN to violate
+        # the property (the model cannot follow undefined behaviour there) is explained by those findings
+        known_idx = {i for (i, why) in oracle_fail
+                     if any(k[0] == self.signature(cases[i][6:] if cases[i].startswith("race! ") else cases[i], impl[i]) for k in known)}
+        dis = set(getattr(self, "disagree_idx", []))
+        broken = [f for f in fails
+                  if not (f.kind == "correspondence" and f.what.startswith("model and implementation differ")
+                          and dis and dis <= known_idx)]
         if broken and not violations:
             # an obligation or the correspondence broke and no failing input was found
             # (a known finding that explains a correspondence break does not count as found)
